@@ -425,3 +425,14 @@ def oracle_tools(run, tier, rng):
             "by_tool": res.get("by_tool"), "length_classes": res.get("length_classes"), "invalid_classes": res.get("invalid_classes"), "samples": res.get("samples")}
 
 PROPS["C20"] = {"scripts": None, "configs": only_default, "backends": one_backend, "modules": [], "theorems": [], "oracles": [("tools", oracle_tools)]}
+
+
+# ------------------------------------------------------------------ Lean theorems per property
+P = "SkinnyVerif.Properties."
+def thm(pid, mods, names):
+    PROPS[pid]["modules"] = ["SkinnyVerif.Properties." + m for m in mods]
+    PROPS[pid]["theorems"] = [P + n for n in names]
+
+thm("C01", ["C01"], ["C01_skinny128", "C01_skinny64"])
+thm("C04", ["C04"], ["C04_skinny128", "C04_skinny64"])
+thm("C10", ["C10"], ["C10_skinny128_set_key", "C10_skinny64_set_key", "C10_null_key128", "C10_null_key64", "C10_mantis_set_key"])
